@@ -17,7 +17,7 @@ Definition owned (g : graph) (o : op) (x : N) : Prop :=
   | OUnpeer6 a b => exists xy, In xy (unpeer_pairs g a b) /\ (x = fst xy \/ x = snd xy)
   | ORemoveInterface s nm => exists i, In i (cpn g s) /\ name_of g i = nm /\ O_cp g i true x
   | ORemoveChild p nm => In x (cpn g p) /\ name_of g x = nm
-  | OPrune | OPrune7 | OPrune8 => False
+  | OPrune | OPrune7 | OPrune8 | OPrune9 => False
   end.
 
 Theorem owned_exec ex o cs g r g' tr :
@@ -47,6 +47,7 @@ Proof.
   - destruct Hx as [i [Hi [Hnm Ho]]].
     apply (closed_O_cp g tr i x (closed_exec ex (ORemoveInterface s iname) cs g r g' tr eq_refl E) (T i (conj Hi Hnm)) Ho).
   - apply T. exact Hx.
+  - destruct Hx.
   - destruct Hx.
   - destruct Hx.
   - destruct Hx.
